@@ -17,6 +17,7 @@ type P1Config struct {
 	Sizes   []int    `json:"sizes"`
 	Names   []string `json:"names,omitempty"`
 	Volumes int      `json:"volumes"`
+	Base    string   `json:"base,omitempty"` // base name of the index file (default "s")
 }
 
 // P1Set is a created set plus reference data.
@@ -58,6 +59,9 @@ func VolPath(index string, v int) string {
 // BuildP1 creates a PAR1 set with gopar's Create on an in-memory fs.
 func BuildP1(cfg P1Config, seed int64) (*P1Set, error) {
 	s := &P1Set{Cfg: cfg, Dir: "/d", Index: "/d/s.par"}
+	if cfg.Base != "" {
+		s.Index = "/d/" + cfg.Base + ".par"
+	}
 	fs := envfs.New()
 	for i, n := range cfg.Sizes {
 		name := fmt.Sprintf("f%d", i)
